@@ -236,12 +236,21 @@ def check(case, rec):
 def poly_table_case(draw):
     xs = draw(st.lists(_f(-1e3, 1e3), min_size=1, max_size=6))
     if draw(st.booleans()):
-        return {'kind': 'poly', 'coeffs': draw(st.lists(_f(-1e3, 1e3), min_size=0, max_size=8)), 'x': xs}
+        return {'kind': 'poly', 'x': xs,
+                'coeffs': draw(st.lists(st.one_of(st.sampled_from([0.0, 0.0, 1.0, -1.0]), _f(-1e3, 1e3)), min_size=0, max_size=8))}
     k = draw(st.integers(2, 8))
     knots = sorted(draw(st.lists(_f(-1e3, 1e3), min_size=k, max_size=k, unique=True)))
     ys = draw(st.lists(_f(-1e3, 1e3), min_size=k, max_size=k))
     xs = xs + [knots[0], knots[-1], knots[k // 2], knots[0] - 1.0, knots[-1] + 1.0]
     return {'kind': 'table', 'scaled': knots[::-1] if draw(st.booleans()) else knots, 'pre': ys, 'x': xs}
+
+
+class _Raw(object):
+    """minimal stand-in for the raw channel data object MultiScaling.scale expects"""
+
+    def __init__(self, data):
+        self.data = data
+        self.scaler_data = {}
 
 
 def check_poly_table(case, rec):
@@ -251,7 +260,14 @@ def check_poly_table(case, rec):
     rec.label('kind=' + case['kind'])
     try:
         if case['kind'] == 'poly':
-            got = scaling.PolynomialScaling(list(case['coeffs']), 0xFFFFFFFF).scale(x.copy())
+            # through the property interface, as a file would define it
+            graph = [{'type': 'Polynomial', 'coeffs': list(case['coeffs']), 'src': None, 'explicit_src': False, 'size_prop': True}]
+            props = {name: value for (name, _pt, value) in SC.graph_props(graph, True)}
+            got = scaling.get_scaling(props, {}, {}).scale(_Raw(x.copy()))
+            direct = scaling.PolynomialScaling(list(case['coeffs']), 0xFFFFFFFF).scale(x.copy())
+            if np.asarray(direct, dtype=np.float64).tobytes() != np.asarray(got, dtype=np.float64).tobytes():
+                rec.violation('poly:formula', 'polynomial %r defined through properties gives %r, the class gives %r' % (
+                    case['coeffs'], np.asarray(got)[:3], np.asarray(direct)[:3]))
             want = SC.horner(case['coeffs'], x)
             mag = SC.horner([abs(c) for c in case['coeffs']], np.abs(x))
         else:
